@@ -100,10 +100,24 @@ class Run:
         # a report needs a construct the model follows: where the function it points at contains constructs that are not followed (and that its reference version did
         # not contain), the deviation may be an artefact of the model - the obligation is undecided, the check ends inconclusive
         why = self._not_followed(loc, c)
+        if why and not self._demotes(why, rule, c):
+            why = ''
         if why:
             self._add('unresolved', rule, instance, loc, f'not decided, the function uses constructs the model does not follow ({why}); would otherwise read: {detail}', c, path)
             return
         self._add('violation', rule, instance, loc, detail, c, path)
+
+    # a value accumulated / assembled over blocks of an axis is not followed as a VALUE (the term graph carries one iteration): that leaves the rules about formulas undecided
+    # (contractions, linearised densities, order of E-step operations, axes of reductions, sanitiser forms, signs, typestate, rank dispatch) - not the rules that look at the
+    # block loop itself or at what is stored where (coverage, mappings, layouts, effects)
+    BLOCKWISE_KINDS = ('result accumulated over blocks of an axis', 'array assembled from blocks of an axis')
+    BLOCKWISE_DEMOTES = ('R-EIN', 'R-LIN', 'ORDER', 'R-AXIS', 'R-SAN', 'R-SIGN', 'R-NORM', 'R-DEP')
+
+    def _demotes(self, why, rule, construct):
+        kinds = [k.split(':')[0].strip() for k in why.split(', ')]
+        if all(k in self.BLOCKWISE_KINDS for k in kinds):
+            return rule in self.BLOCKWISE_DEMOTES or 'rank-dispatch' in str(construct)
+        return True
 
     def _not_followed(self, loc, construct):
         try:
